@@ -51,6 +51,7 @@ def task(arg):
         else:
             out.violation(f"all-nodes-run-raises:{type(e).__name__}", {"date": date_iso, "households": names}, repr(e)[:300])
         return out.dump()
+    dag = sim.dag_for(date_iso, tuple(cols))
     must_warn = set(f) | set(create_groupings()) | set(load_aggregation_dict("aggregate_by_group")) | set(load_aggregation_dict("aggregate_by_p_id"))
     for n in subset:
         if n not in nodes:
@@ -84,6 +85,25 @@ def task(arg):
         if n in must_warn and not named:
             out.violation(f"override-not-announced:{n}", case, f"supplying {n} (a rule / grouping / aggregation) raised no FunctionsAndColumnsOverlapWarning naming it")
         out.outcome((n in f, named))
+        # a supplied column must be USED: for nodes that are not policy rules (no tripwire possible) supply marker values and read them back
+        if n not in f:
+            col = full[n].to_numpy()
+            if col.dtype.kind in "fiu" and not n.endswith("_id"):
+                marker = col + 1 if col.dtype.kind in "iu" else col + 1.0
+                d3 = df.copy()
+                d3[n] = marker
+                succ = [t for t in dag.successors(n)] if n in dag else []
+                tg = succ[:3] or [t for t in targets[:1]]
+                try:
+                    with warnings.catch_warnings():
+                        warnings.simplefilter("ignore")
+                        dbg = compute_taxes_and_transfers(d3, p, f, targets=tg, debug=True)
+                    out.step()
+                    if n not in dbg.columns or not np.array_equal(dbg[n].to_numpy().astype(float), marker.astype(float)):
+                        out.violation(f"supplied-column-ignored:{n}", {**case, "marker": True},
+                                      f"{n} supplied with marker values on {date_iso}, but the debug output holds {dbg[n].tolist()[:4] if n in dbg.columns else 'nothing'}")
+                except Exception as e:  # noqa: BLE001
+                    out.count("marker_runs_raising")
     out.sample({"date": date_iso, "households": names, "nodes": subset[:4]}, limit=1)
     return out.dump()
 
